@@ -58,6 +58,17 @@ fn apply(cfg: &mut Cfg, key: &str, val: &str) {
     }
 }
 
+fn toml_bytes(opts: &[(String, String)], invalid: &str) -> Vec<u8> {
+    let mut v = toml_of(opts).into_bytes();
+    match invalid {
+        // an ANSI-encoded comment: not valid UTF-8, so the file cannot be read as TOML
+        "non-utf8-file" => v.extend_from_slice(b"# caf\xe9 \xff\n"),
+        "syntax-error-file" => v.extend_from_slice(b"tab_width = = 3\n"),
+        _ => {}
+    }
+    v
+}
+
 fn toml_of(opts: &[(String, String)]) -> String {
     let mut s = String::from("# generated\n");
     for (k, v) in opts {
@@ -127,7 +138,7 @@ impl Prop for C19Prop {
         if stream == "invalid" {
             scn.invalid = (*t.pick(&[
                 "unknown-key-file", "unknown-key-cli", "nested-key", "bad-type-file", "bad-type-cli", "out-of-range",
-                "bad-enum", "missing-config-file", "dir-config-file", "no-equals", "negative", "bad-enum-file",
+                "bad-enum", "missing-config-file", "dir-config-file", "no-equals", "negative", "bad-enum-file", "non-utf8-file", "syntax-error-file",
             ]))
             .to_string();
         }
@@ -170,13 +181,13 @@ impl Prop for C19Prop {
             file_opts.retain(|(k, _)| k != "use_tabs");
             file_opts.push(("use_tabs".into(), "\"maybe\"".into()));
         }
-        let needs_file = matches!(scn.invalid.as_str(), "unknown-key-file" | "nested-key" | "bad-type-file" | "bad-enum-file");
+        let needs_file = matches!(scn.invalid.as_str(), "unknown-key-file" | "nested-key" | "bad-type-file" | "bad-enum-file" | "non-utf8-file" | "syntax-error-file");
         if needs_file && scn.depth.is_none() && scn.explicit.is_none() {
             scn.depth = Some(0);
         }
         let mut effective = Cfg::default();
         if let Some(how) = &scn.explicit {
-            sc.write("conf/my.toml", toml_of(&file_opts).as_bytes());
+            sc.write("conf/my.toml", &toml_bytes(&file_opts, &scn.invalid));
             let p = if how == "abs" {
                 sc.path("conf/my.toml").to_string_lossy().to_string()
             } else {
@@ -192,7 +203,7 @@ impl Prop for C19Prop {
             }
         } else if let Some(d) = scn.depth {
             let idx = (total_depth - d) as usize;
-            sc.write(&format!("{}pasfmt.toml", dirs[idx]), toml_of(&file_opts).as_bytes());
+            sc.write(&format!("{}pasfmt.toml", dirs[idx]), &toml_bytes(&file_opts, &scn.invalid));
             for (k, v) in &scn.file_opts {
                 apply(&mut effective, k, v);
             }
